@@ -22,8 +22,8 @@ objects may share (`arr[i]` on `ndim > 1` is a *view*: a new `nd` cell on the **
 buffer cell.  `_set_by_path` into an ndarray (`setNd`), `__get` into an ndarray (`getV`), `copy.copy` of an
 ndarray root in `apply`, truthiness of an ndarray root are modelled line by line.
 
-Not modelled (stated in the manifest): `key_paths=` views, unhashable / tuple-valued / slice keys, 0-d
-arrays, non-integer dtypes, non-contiguous arrays (no operation of tree.py creates one from a contiguous one).
+Not modelled (stated in the manifest): `key_paths=` views, unhashable / slice keys, tuple keys STORED in a dict
+(tuple-of-ints keys on arrays, lists, reads: last section), 0-d arrays, non-integer dtypes, non-contiguous arrays (no operation of tree.py creates one from a contiguous one).
 -/
 namespace MlModel.Tree
 
@@ -688,5 +688,215 @@ def applyFn (strict : Bool) (f : Option LeafFn) (h : Heap) (root : Ref) : Res Re
       match mapValues f h1 root ps with
       | (h2, .error e) => (h2, .error e)
       | (h2, .ok kvs) => setMany strict false h2 c kvs    -- copy_and_set(*zip(*items))
+
+/-! ## tuple-of-ints keys: numpy multi-dimensional indices (work package C18D)
+
+A path element may be a **tuple of ints** `(i, j, …)`: on an ndarray `a[(i, j)]` is `a[i, j]` — ONE indexing
+step that resolves several axes at once (a view, or a scalar).  The key types of `Model/Tree.lean` stay as they are;
+`XKey` adds the tuple on top, and `getVX` / `setPathX` are `__get` / `_set_by_path` over such paths (they ARE `getV` /
+`setPath` on tuple-free paths: `setPathX_plain`, `getVX_plain` in `Lemmas/TreeTup.lean`).
+
+What a tuple key does at the other node kinds: `list[(i, j)]` / `tuple[(i, j)]` is a `TypeError`; a `dict` lookup is a
+`KeyError` (the dicts of the model hold str / int / Index / Literal keys, never a tuple); a scalar / NullMap is not a
+mapping.  NOT modelled: STORING under a tuple key (`set` with a tuple key met at a dict, or at a NullMap of a
+non-strict view, where `_default_tree` builds `{(i, j): …}`) — `DKey` has no tuple; the model answers `.other` there and
+the harness keeps those operations out of the correspondence (oracle only). -/
+
+inductive XKey where
+  | k (k : PKey)
+  | tup (is : List Int)
+  deriving DecidableEq, Repr, Inhabited
+
+/-- the ordinary key a path element is, if it is one -/
+def XKey.plain? : XKey → Option PKey
+  | .k key => some key
+  | .tup _ => none
+
+/-- The window `a[i₁, …, iₘ]` addresses in a C-contiguous array of shape `shape` (numpy basic indexing with a tuple
+of ints: at most `ndim` indices, each in range for its axis, negative from the end): `(relative offset, item shape)`;
+`none` is numpy's `IndexError`. -/
+def tupWin : List Nat → List Int → Option (Nat × List Nat)
+  | shape, [] => some (0, shape)
+  | [], _ :: _ => none                                     -- too many indices for array
+  | n :: inner, i :: is =>
+    match resolveIdx n i with
+    | none => none                                         -- index out of bounds for axis
+    | some j => (tupWin inner is).map fun os => (j * prod inner + os.1, os.2)
+
+/-- `scalarWalk` over paths with tuple keys -/
+def scalarWalkX (x : Int) : List XKey → Except ErrKind (Loc × Bool)
+  | [] => .ok (.scalar x, true)
+  | .k .self :: _ => .ok (.scalar x, true)
+  | .k (.lit _ v) :: _ => .ok (.obj v, false)
+  | _ :: _ => .error .key
+
+/-- `ndWalk` over paths with tuple keys: `data = data[(i, j)]` resolves the axes at once. -/
+def ndWalkX (h : Heap) (b : Ref) : Nat → List Nat → List XKey → Except ErrKind (Loc × Bool)
+  | off, shape, [] => .ok (.view b off shape, true)
+  | off, shape, .k .self :: _ => .ok (.view b off shape, true)
+  | _, _, .k (.lit _ v) :: _ => .ok (.obj v, false)
+  | _, [], _ :: _ => .error .key                   -- 0-d: not `is_array_like`
+  | off, n :: inner, .k k :: ks =>
+    match k.asInt with
+    | none => .error .index
+    | some i =>
+      match resolveIdx n i with
+      | none => .error .index
+      | some j =>
+        match inner with
+        | [] => scalarWalkX ((bufOf h b).getD (off + j * prod inner) 0) ks
+        | _ => ndWalkX h b (off + j * prod inner) inner ks
+  | off, n :: inner, .tup is :: ks =>
+    match tupWin (n :: inner) is with
+    | none => .error .index                        -- IndexError
+    | some (o, []) => scalarWalkX ((bufOf h b).getD (off + o) 0) ks
+    | some (o, s) => ndWalkX h b (off + o) s ks
+
+/-- `TreeMapView.__get` over paths with tuple keys. -/
+def getVX (h : Heap) : Ref → List XKey → Except ErrKind (Loc × Bool)
+  | r, [] => .ok (.obj r, true)
+  | r, .k .self :: _ => .ok (.obj r, true)
+  | _, .k (.lit _ v) :: _ => .ok (.obj v, false)
+  | r, .k k :: ks =>
+    match h[r]? with
+    | none => .error .other
+    | some (.nd b off shape) => ndWalkX h b off shape (.k k :: ks)
+    | some n =>
+      match n.slotGet k with
+      | .ok c => getVX h c ks
+      | .error e => .error e
+  | r, .tup is :: ks =>
+    match h[r]? with
+    | none => .error .other
+    | some (.nd b off shape) => ndWalkX h b off shape (.tup is :: ks)
+    | some (.dict _) => .error .key                -- no dict of the model holds a tuple key
+    | some (.list _) | some (.tuple _) => .error .type   -- list indices must be integers or slices, not tuple
+    | some (.leaf _) | some .null => .error .key
+    | some (.buf _) => .error .other
+
+/-- The ndarray arm of `_set_by_path` for a tuple key: as `setNd`, the item being `result[(i, j, …)]`.
+`key == len(result)` is `False` for a tuple, so there is no `AssertionError` arm. -/
+def setNdT (recur : Heap → Ref → Res Ref) (inPlace : Bool) (h : Heap) (tree b off : Nat) (shape : List Nat)
+    (is : List Int) : Res Ref :=
+  let (h1, res, b1, off1) :=
+    if inPlace then (h, tree, b, off) else ((ndCopy h b off shape).1, (ndCopy h b off shape).2, h.size, 0)
+  match shape with
+  | [] => (h1, .error .key)
+  | _ :: _ =>
+    match tupWin shape is with
+    | none => (h1, .error .key)                             -- IndexError → KeyError
+    | some (o', s) =>
+      let o := off1 + o'
+      let (h2, child) := ndItem h1 b1 o s                   -- result[key]
+      match recur h2 child with
+      | (h3, .error e) => (h3, .error (wrapKey e))
+      | (h3, .ok c) =>
+        match coerce h3 c s with                            -- result[key] = c
+        | none => (h3, .error .key)
+        | some ys => (ndWrite h3 b1 o ys, .ok res)
+
+/-- `_set_by_path` over paths with tuple keys. -/
+def setPathX (strict inPlace : Bool) (h : Heap) (tree : Ref) : List XKey → Ref → Res Ref
+  | [], v => (h, .ok v)
+  | .k .self :: _, v => (h, .ok v)
+  | .k .skip :: _, _ => (h, .ok tree)
+  | .k k :: rest, v =>
+    match h[tree]? with
+    | none => (h, .error .other)
+    | some .null =>
+      -- `_default_tree` of the REST of the path: a tuple key further down would be stored as a dict key (not modelled)
+      if strict then (h, .error .value)
+      else match rest.mapM XKey.plain? with
+        | some rest' => defaultTree h (k :: rest') v
+        | none => (h, .error .other)
+    | some (.leaf _) => (h, .error .type)
+    | some (.tuple rs) =>
+      if inPlace then (h, .error .type)
+      else
+        let (h1, res) := alloc h (.list rs)
+        match setSeq (fun h' c => setPathX strict inPlace h' c rest v) h1 res rs k with
+        | (h2, .ok ()) =>
+          match h2[res]? with
+          | some (.list rs') => let (h3, r) := alloc h2 (.tuple rs'); (h3, .ok r)
+          | _ => (h2, .error .other)
+        | (h2, .error e) => (h2, .error e)
+    | some (.list rs) =>
+      let (h1, res) := if inPlace then (h, tree) else alloc h (.list rs)
+      match setSeq (fun h' c => setPathX strict inPlace h' c rest v) h1 res rs k with
+      | (h2, .ok ()) => (h2, .ok res)
+      | (h2, .error e) => (h2, .error e)
+    | some (.dict es) =>
+      let (h1, res) := if inPlace then (h, tree) else alloc h (.dict es)
+      match setMap (fun h' c => setPathX strict inPlace h' c rest v) h1 res es k with
+      | (h2, .ok ()) => (h2, .ok res)
+      | (h2, .error e) => (h2, .error e)
+    | some (.nd b off shape) =>
+      setNd (fun h' c => setPathX strict inPlace h' c rest v) inPlace h tree b off shape k
+    | some (.buf _) => (h, .error .other)
+  | .tup is :: rest, v =>
+    match h[tree]? with
+    | none => (h, .error .other)
+    | some .null => if strict then (h, .error .value) else (h, .error .other)   -- `{(i, j): …}`: not modelled
+    | some (.leaf _) => (h, .error .type)
+    | some (.tuple rs) =>
+      if inPlace then (h, .error .type)
+      else ((alloc h (.list rs)).1, .error .key)            -- result = list(tree); result[key]: TypeError → KeyError
+    | some (.list rs) =>
+      if inPlace then (h, .error .key) else ((alloc h (.list rs)).1, .error .key)
+    | some (.dict _) => (h, .error .other)                  -- a tuple as a dict key: not modelled
+    | some (.nd b off shape) =>
+      setNdT (fun h' c => setPathX strict inPlace h' c rest v) inPlace h tree b off shape is
+    | some (.buf _) => (h, .error .other)
+
+/-- `Keys` over paths with tuple keys. -/
+inductive KeysX where
+  | path (p : List XKey)
+  | empty
+  | multi (ks : List (List XKey))
+  deriving Repr, Inhabited
+
+/-- `__getitem__` over paths with tuple keys (as `getItemV`). -/
+def getItemVX (h : Heap) (root : Ref) : KeysX → Except ErrKind GetResV
+  | .path p => (getVX h root p).map fun x => .one x.1
+  | .empty => .ok (.many [])
+  | .multi ks => (ks.mapM fun p => (getVX h root p).map (·.1)).map .many
+
+/-- `get(key, default)` over paths with tuple keys (as `getDV`). -/
+def getDVX (h : Heap) (root : Ref) (ks : KeysX) (dflt : GetResV) : Except ErrKind GetResV :=
+  match getItemVX h root ks with
+  | .ok r => .ok r
+  | .error .key => .ok dflt
+  | .error .index => .ok dflt
+  | .error e => .error e
+
+/-- as `setMany` -/
+def setManyX (strict inPlace : Bool) : Heap → Ref → List (List XKey × Ref) → Res Ref
+  | h, data, [] => (h, .ok data)
+  | h, data, (p, v) :: kvs =>
+    match setPathX strict inPlace h data p v with
+    | (h1, .ok d) => setManyX strict inPlace h1 d kvs
+    | (h1, .error e) => (h1, .error e)
+
+/-- `TreeMapView.set` over paths with tuple keys (as `setItem`). -/
+def setItemX (strict inPlace : Bool) (h : Heap) (root : Ref) (keys : KeysX) (values : Ref) : Res Ref :=
+  match keys with
+  | .path p => finishSet inPlace root (setPathX strict inPlace h root p values)
+  | .empty =>
+    match truthy h values with
+    | .ok false => (h, .ok root)
+    | .ok true => (h, .error .value)
+    | .error e => (h, .error e)
+  | .multi ks =>
+    let vals := valuesOf h values
+    if ks.length == 1 && vals.length > 1 then
+      finishSet inPlace root (setPathX strict inPlace h root (ks.headD []) values)
+    else if ks.length != vals.length then (h, .error .value)
+    else finishSet inPlace root (setManyX strict inPlace h root (ks.zip vals))
+
+/-- `copy_and_update` over paths with tuple keys (as `copyAndUpdate`). -/
+def copyAndUpdateX (strict : Bool) (h : Heap) (root : Ref) (other : List (List XKey × Ref)) : Res Ref :=
+  match other with
+  | [] => (h, .ok root)
+  | _ => setManyX strict false h root other
 
 end MlModel.Tree
